@@ -48,6 +48,10 @@ def _tempdir_format(root, mode):
         return os.path.join(root, 'tmp', '{uuid}', 'part-{partition}'), os.path.join(root, 'tmp')
     if mode == 'external-plain':
         return os.path.join(root, 'tmp2', 'p{partition}'), os.path.join(root, 'tmp2')
+    if mode == 'sibling-prefix':
+        # temp directories NEXT TO the dataset whose path text starts with the dataset path (a string-prefix test is
+        # not a containment test); leftovers are caught by the 'entry-next-to-dataset' rule
+        return os.path.join(root, 'ds') + '.tmp-{uuid}-{partition}', None
     raise ValueError(mode)
 
 
@@ -228,7 +232,7 @@ def _case(draw):
     cfg = {'npartitions': draw(st.one_of(st.sampled_from(range(1, 17)), st.sampled_from(range(2, 17)), st.sampled_from(range(1, 5)))),
            'p': draw(st.one_of(st.sampled_from(range(1, 21)), st.sampled_from(range(2, 21)), st.sampled_from(range(1, 4)))),
            'compression': draw(st.sampled_from(['snappy', 'gzip', None])),
-           'tempdir': draw(st.sampled_from(['inside', 'external-uuid', 'inside', 'external-plain'])),
+           'tempdir': draw(st.sampled_from(['inside', 'external-uuid', 'inside', 'external-plain', 'sibling-prefix'])),
            'overwrite': False, 'previous': None}
     r = draw(st.sampled_from(range(6)))
     prev = None
